@@ -157,7 +157,11 @@ func calleeShort(cc *ssa.CallCommon) string {
 		return cc.Method.Name()
 	}
 	if f := cc.StaticCallee(); f != nil {
-		return f.Name()
+		n := f.Name()
+		if i := strings.IndexByte(n, '['); i > 0 {
+			n = n[:i] // instantiated generic: Delete[K,V] -> Delete
+		}
+		return n
 	}
 	if b, ok := cc.Value.(*ssa.Builtin); ok {
 		return b.Name()
